@@ -137,7 +137,7 @@ impl Dispatcher {
                             .block_on_at(
                                 async move {
                                     while let Ok(Spawning { task: f, meta }) =
-                                        receiver.try_recv()
+                                        receiver.recv_async().await
                                     {
                                         let task = Runtime::with_current(|rt| f.spawn(rt, meta));
                                         if concurrent {
